@@ -6,9 +6,9 @@ import random
 import procgen
 import vlib
 
-CODE_PROPS = {101: ["C01", "C02"], 102: ["C01", "C04"], 103: ["C01"], 201: ["C02"], 202: ["C02"],
+CODE_PROPS = {101: ["C01", "C02"], 102: ["C01", "C04"], 103: ["C01"], 201: ["C02"], 202: ["C02"], 203: ["C02"],
               301: ["C03"], 302: ["C03"], 303: ["C03"], 304: ["C03"], 305: ["C03"], 306: ["C03"],
-              401: ["C04"], 501: ["C11"], 502: ["C11"], 601: ["C05"]}
+              401: ["C04"], 501: ["C11"], 502: ["C11"], 503: ["C11"], 601: ["C05"]}
 
 
 def shrink(binary, hist, pred, budget=40, seconds=75):
